@@ -169,6 +169,7 @@ def unit_tables(unit):
     eq("single-addressable-opcodes", sorted(OPC.SINGLE_ADDRESSABLE_OPCODES), rs_single, "opcodes.SINGLE_ADDRESSABLE_OPCODES", "eval.rs SINGLE_ADDRESSABLE_OPCODES")
     # ---- 3. register widths: arch.regs, REGISTERS/REG_SIZES, REGISTER_SIZE, Registers masks, mask_for
     from sc62015 import arch as ARCH
+    from sc62015.pysc62015.instr.opcode_table import OPCODES as OPCODES_
     from sc62015.pysc62015 import emulator as EMU
     from sc62015.pysc62015 import constants as K
     st = _strip_rust(_read("sc62015/core/src/llama/state.rs"))
@@ -255,6 +256,24 @@ def unit_tables(unit):
         ir = [s for s in segs if "internal" in s.name.lower()]
         eq(f"view:{cls.__name__}:internal-ram-segment", [(s.start, s.length) for s in ir], [(K.INTERNAL_MEMORY_START, K.INTERNAL_MEMORY_LENGTH)],
            "Internal RAM segment", "(INTERNAL_MEMORY_START, INTERNAL_MEMORY_LENGTH) used by the lifter")
+    # ---- 7. architecture-level constants derived from the tables
+    longest = 0
+    longest_bytes = b""
+    for pre in (None, 0x32):
+        for opc in range(256):
+            for fill in (0x00, 0x80, 0xC0, 0x04, 0x24, 0x84, 0xFF):
+                data = bytes(([pre] if pre is not None else []) + [opc] + [fill] * 8)
+                try:
+                    ins = OPC.decode(data, 0x1000, OPCODES_)
+                except Exception:  # noqa: BLE001 - rejected byte patterns do not count
+                    ins = None
+                if ins is not None and ins.length() > longest:
+                    longest, longest_bytes = ins.length(), data[:ins.length()]
+    declared = getattr(ARCH.SC62015, "max_instr_length", 16)     # Binary Ninja's default when the class does not say
+    eq("arch:max-instr-length-covers-longest-encoding", declared >= longest, True,
+       f"arch.SC62015.max_instr_length = {declared}", f"longest encoding the decoder table yields: {longest} bytes ({longest_bytes.hex()})")
+    eq("arch:address-size", ARCH.SC62015.address_size, (K.ADDRESS_SPACE_SIZE - 1).bit_length() // 8 + (1 if (K.ADDRESS_SPACE_SIZE - 1).bit_length() % 8 else 0),
+       "arch.SC62015.address_size", "bytes needed for ADDRESS_SPACE_SIZE")
     known = unit.get("known", ())
     failed = [r for r in res if r["status"] == "failed"]
     return dict(unit=unit, status="ok", error=None, kinds={"ground": len(res)}, obligations=len(res),
